@@ -57,6 +57,15 @@ NONE = ("agg", OPT + "::None", ())
 CONTINUES = ("call", "search::continues", (), ())   # loops walked once: the search goes on with the next item
 
 
+def continues(it):
+    """the outcome of a search (over iterator `it`) that goes on after the one item that was looked at"""
+    return ("call", "search::continues", (), (it,))
+
+
+def is_continues(n):
+    return isinstance(n, tuple) and len(n) >= 2 and n[0] == "call" and n[1] == "search::continues"
+
+
 def ok(v):
     return ("agg", RES + "::Ok", (v,))
 
@@ -726,18 +735,18 @@ class Paths:
                 f2 = [("variant", nx, ("Some",))] + f2
                 if name == "find_map":
                     for f3, pay, v in self._split(r2, OPT):
-                        cases.append((f2 + f3, e2, some(pay) if v == "Some" else CONTINUES))
+                        cases.append((f2 + f3, e2, some(pay) if v == "Some" else continues(nx)))
                     continue
                 for tv in (True, False):
                     for conj in self._bool_cases(r2, tv):
                         if name in ("find", "rfind"):
-                            val = some(item) if tv else CONTINUES
+                            val = some(item) if tv else continues(nx)
                         elif name == "position":
-                            val = some(("call", "search::position", (), (it,))) if tv else CONTINUES
+                            val = some(("call", "search::position", (), (it,))) if tv else continues(nx)
                         elif name == "any":
-                            val = ("const", True) if tv else CONTINUES
+                            val = ("const", True) if tv else continues(nx)
                         else:
-                            val = CONTINUES if tv else ("const", False)
+                            val = continues(nx) if tv else ("const", False)
                         cases.append((f2 + conj, e2, val))
             return cases
         if name in ("call", "call_mut", "call_once") and "ops::function" in path and len(args) == 2:
